@@ -1,6 +1,8 @@
 import LekkerVerif.Core.HierSolve
 import LekkerVerif.Model.Params
 import LekkerVerif.Model.Sweep
+import LekkerVerif.Model.Flatten
+import LekkerVerif.Core.HierFlatten
 /-! Parametric hierarchies end to end (core Lean only): `Solver.solve(**kw)` of a hierarchy whose leaves are affine probe
 blocks `S(p) = S0 + p * S1`.
 
@@ -61,6 +63,26 @@ def psweep (sched : List (St F) → Option (Nat × Nat)) (kw : List (String × L
   | none => none
   | some ns => some ((List.range ns).map fun i =>
       psolve sched ⟨kw.map fun kv => (kv.1, ((Sweep.bcast ns kv.2)[i]?).getD default)⟩ t)
+
+mutual
+/-- the leaf placements of `flatten()`, depth first, each with the rename table `flatten_top_level` leaves on it: the table
+of the placement one level up (`P`, already composed down to there) composed with the placement's own table -/
+def flatLeaves (P : Option Table) : PNet F → List (Table × PNet F)
+  | .leaf pins idx S0 S1 param dflt => [(P.getD [], .leaf pins idx S0 S1 param dflt)]
+  | .node children _ _ => flatLeavesAll P children
+def flatLeavesAll (P : Option Table) : List (Table × PNet F) → List (Table × PNet F)
+  | [] => []
+  | (m, ch) :: rest =>
+    flatLeaves (some (match P with | none => m | some p => Flatten.composeTables p m)) ch ++ flatLeavesAll P rest
+end
+
+/-- `top.flatten(); top.solve(**kw)`: the flattened solver keeps its `default_params` (`flatten_top_level` restores them), every
+leaf placement carries its composed table, links and exposures are those of `HNet.flatten` (they do not depend on the values) -/
+def pflatSolve (sched : List (St F) → Option (Nat × Nat)) (kw : Dict F) (t : PNet F) : Except Err (CompD F) :=
+  match t, (inst kw t).flatten with
+  | .node children _ _, .node _ links exposed =>
+    HNet.solveH sched (.node (instAll (solverParams (defaultsAll ⟨[]⟩ children) kw ⟨[]⟩) (flatLeavesAll none children)) links exposed)
+  | _, _ => HNet.solveH sched (inst kw t)
 
 mutual
 /-- the dictionary that reaches the object at the end of a path of child positions (none if the path leaves the tree) -/
